@@ -60,3 +60,21 @@ Theorem C05_never_rewritten_single_chunked_partial : forall c ops, vcfg c -> c_c
   refines c (fold_left (model_step c) ops init_state) (fold_left (spec_step c) ops spec_init).
 Proof. exact writer_refines_single_chunked. Qed.
 Print Assumptions C05_never_rewritten_single_chunked_partial.
+
+(* ---- block calls (any number of blocks per call), chunked layouts: the stored map equals the Spec map
+   after every history, in which an accepted call only adds samples at indices above every stored one
+   -- a sample, once written, never changes value -- and a call with invalid arrays is a no-op both
+   in the model and in the Spec, so later valid writes behave as if it had never been made *)
+From DRF Require Import Proofs.WriterMultiIdx Proofs.WriterMulti.
+
+Theorem C05_never_rewritten_blocks_chunked : forall c ops, vcfg c -> c_chunk c = true ->
+  Forall (fun op => first_nonneg (fst op)) ops ->
+  refines c (fold_left (model_step_blocks c) ops init_state) (fold_left (spec_step_blocks c) ops spec_init).
+Proof. exact writer_refines_blocks_chunked. Qed.
+Print Assumptions C05_never_rewritten_blocks_chunked.
+
+Theorem C05_rejected_blocks_change_nothing : forall c st s bl vec,
+  refines c st s -> valid_arrays (w_gi st) (zlen vec) bl = false ->
+  model_step_blocks c st (bl, vec) = st /\ spec_step_blocks c s (bl, vec) = s.
+Proof. exact rejected_blocks_change_nothing. Qed.
+Print Assumptions C05_rejected_blocks_change_nothing.
